@@ -139,9 +139,9 @@ fn run<T: RealNumber>(case: &RegCase, ctx: &mut Ctx) -> Result<(), Fail> {
     // The SVD solver is a rank-thresholded pseudo-inverse (cut-off max(m,n) * eps * s_max on the p x p normal
     // matrix Z^T Z + alpha I). Where that matrix is numerically singular in the working precision - possible
     // only in f32, alpha >= 1e-3 keeps cond <= 1e12 in f64 - a direction is dropped by design and the result is
-    // not the minimiser; the SVD solver's optimality is asserted only at a factor 8 away from the cut-off.
+    // not the minimiser; the SVD solver's optimality is asserted only at a factor 64 away from the cut-off.
     let cond_g = (zs[0] * zs[0] + alpha) / (zs[p - 1] * zs[p - 1] + alpha);
-    let svd_in_domain = cond_g * 8.0 * (p as f64) * eps < 1.0;
+    let svd_in_domain = cond_g * 64.0 * (p as f64) * eps < 1.0;
     ctx.label_if(!svd_in_domain, "ridge-svd: normal matrix numerically singular (SVD solver not asserted)");
     let mut ridge: Vec<Vec<f64>> = vec![];
     for solver in [RidgeRegressionSolverName::Cholesky, RidgeRegressionSolverName::SVD] {
@@ -238,7 +238,7 @@ pub fn property() -> Property {
         rule: "design matrices U diag(s) V^T (cond 10, 1e3 or 1e6; f32: <= 1e2) with 1<=p<=8, p<n<=50 (quick) / 80 (thorough), each column rescaled by 10^[-2,3] and shifted by up to 100 spreads (70% of the columns); targets = linear signal + intercept + noise, or pure noise, at scales 1e-2..1e2; alpha in 1e-3..1e2; both OLS solvers, both ridge solvers, both normalisation settings on every case; fresh rows for predict. non-trivial = p >= 2, a column with |mean| > 0.1 std and cond([X 1]) >= 10; distinct = distinct serialised case",
         assumptions: vec![
             format!("residual / gradient bounds are C*eps*n*scale with C = {} and scale = ||A|| (||A|| ||w|| + ||y||)", C),
-            "the ridge SVD solver (gradient, agreement with Cholesky) is asserted only where cond(Z^T Z + alpha I) * 8 p eps < 1, i.e. a factor 8 away from the solver's rank cut-off; this excludes f32 cases only (alpha >= 1e-3 bounds the condition number by 1e12)".into(),
+            "the ridge SVD solver (gradient, agreement with Cholesky) is asserted only where cond(Z^T Z + alpha I) * 64 p eps < 1, i.e. a factor 64 away from the solver's rank cut-off; this excludes f32 cases only (alpha >= 1e-3 bounds the condition number by 1e12)".into(),
             "OLS assertions require cond([X 1]) <= 1e8 (f32: 1e3), measured per case with a one-sided Jacobi SVD; beyond that the SVD solver's own rank cut-off makes the two solvers differ by design".into(),
             "with normalisation on, the bounds are widened by the relative uncertainty 8 n eps (mean^2+std^2)/std^2 of the library's one-pass column variance (C03's known finding)".into(),
         ],
